@@ -17,12 +17,23 @@ REPO = os.environ.get("VERIF_REPO", "/repo")
 # (only the import line of a copy is rewritten, at build time, from the current working tree or
 # from the mutant overlay), so a replica can run with a shifted clock (C01).
 VTIME_DIRS = ["agent/consul/state", "agent/consul/fsm", "agent/structs", "internal/storage/inmem", "internal/storage/raft", "agent/consul", "agent/consul/stream"]
-TIME_IMPORT = re.compile(r'^(\s*)"time"\s*$', re.M)
+# packages whose "sync" import is rewritten to the scheduling shim (falls through to the real
+# primitives unless a schedule exploration is running)
+VSYNC_DIRS = ["internal/storage/inmem"]
+REWRITES = [
+    (VTIME_DIRS, re.compile(r'^(\s*)"time"\s*$', re.M), r'\1time "github.com/hashicorp/consul/internal/verifmc/vtime"'),
+    (VSYNC_DIRS, re.compile(r'^(\s*)"sync"\s*$', re.M), r'\1sync "github.com/hashicorp/consul/internal/verifmc/vsync"'),
+]
 
 
 def rewrite_time_imports(rep, out_path):
     dst_root = os.path.join(os.path.dirname(out_path), "vtime-src" + ("-" + os.path.basename(out_path).replace(".json", "") if "overlay-" in out_path else ""))
-    for d in VTIME_DIRS:
+    dirs = []
+    for ds, _, _ in REWRITES:
+        for d in ds:
+            if d not in dirs:
+                dirs.append(d)
+    for d in dirs:
         full = os.path.join(REPO, d)
         names = set(f for f in os.listdir(full) if f.endswith(".go") and not f.endswith("_test.go"))
         for target in list(rep):
@@ -35,8 +46,12 @@ def rewrite_time_imports(rep, out_path):
                 text = open(src).read()
             except FileNotFoundError:
                 continue
-            new, n = TIME_IMPORT.subn(r'\1time "github.com/hashicorp/consul/internal/verifmc/vtime"', text)
-            if n == 0:
+            new, total = text, 0
+            for ds, rx, repl in REWRITES:
+                if d in ds:
+                    new, n = rx.subn(repl, new)
+                    total += n
+            if total == 0:
                 continue
             dst = os.path.join(dst_root, d, f)
             os.makedirs(os.path.dirname(dst), exist_ok=True)
